@@ -496,7 +496,7 @@ class VirtualOperator(abc.ABC):
                     # 2nd order derivative
                     _order2.setdefault(pair, {})
                     d2param = expr.derive(pair[0]).derive(pair[1], **values)
-                    if not np.allclose(d2param, 0):
+                    if np.any(np.asarray(d2param) != 0):
                         _order2[pair].update({param: d2param})
                 elif pair[0] in variables or pair[1] in variables:
                     # 1st order cross derivatives
